@@ -361,6 +361,7 @@ def directed(rng):
                                                    assign(V('k'), add(V('k'), V('t1')))],
         'raw-condition-select-overwrite': [assign(V('t1'), call('mod', call('abs', V('n')), N(3))), select_(V('t1'), [(0, 0, [assign(V('t1'), N(5))]), (1, 1, [assign(V('t1'), N(6))])], [assign(V('t1'), N(7))]), assign(V('k'), V('t1'))],
         'raw-condition-in-loop-body': [do_('i', N(1), N(3), [assign(V('t1'), el('ia', V('i'))), if_(cmp_('>', V('t1'), N(1)), [assign(V('t1'), N(10))], [assign(V('t1'), N(0))]), assign(el('ic', V('i')), V('t1'))])],
+        'raw-associate-selector-read': [assign(V('t2'), add(V('n'), N(2))), {'s': 'assoc', 'names': ['z1', 'z3'], 'targets': [V('t1'), add(V('t2'), N(1))], 'body': [assign(V('z1'), N(2))]}, assign(V('k'), V('t1'))],
         'raw-across-conditional-call': [assign(V('t1'), N(3)), callst('h6', V('t1'), V('n')), assign(V('k'), V('t1'))],
     }
     out = []
@@ -881,6 +882,8 @@ def cover(ctx, label, clauses, cases, progs, runs):
                     'sets_by_statement_id': progs[judged[-1]['idx']]['sets'][:12]})
     if not judged:
         raise MachineryError('no run was judged')
+    if ctx.replay:
+        return          # a single replayed program need not contain every construct
     if 'D' in clauses and (tot['reads'] == 0 or tot['writes'] == 0 or tot['windows'] == 0):
         raise MachineryError(f'vacuous: {tot}')
     if 'C' in clauses and (tot['iters'] == 0 or tot['points'] == 0):
